@@ -1608,6 +1608,10 @@ static double amplgsl_sf_expint_En(arglist *al) {
   if (!check_int_arg(al, 0, "n"))
     return 0;
   if (al->derivs) {
+    if ((al->hes && !check_deriv_arg(al, n, INT_MIN + 2, INT_MAX)) ||
+        !check_deriv_arg(al, n, INT_MIN + 1, INT_MAX)) {
+      return 0;
+    }
     al->derivs[1] = n != 0 ?
         -gsl_sf_expint_En(n - 1, x) : -exp(-x) * (1 / x + 1) / x;
     if (al->hes) {
@@ -1738,6 +1742,10 @@ static double amplgsl_sf_fermi_dirac_int(arglist *al) {
   if (!check_int_arg(al, 0, "j"))
     return 0;
   if (al->derivs) {
+    if ((al->hes && !check_deriv_arg(al, j, INT_MIN + 2, INT_MAX)) ||
+        !check_deriv_arg(al, j, INT_MIN + 1, INT_MAX)) {
+      return 0;
+    }
     al->derivs[1] = gsl_sf_fermi_dirac_int(j - 1, x);
     if (al->hes)
       al->hes[2] = gsl_sf_fermi_dirac_int(j - 2, x);
@@ -2000,6 +2008,11 @@ static double amplgsl_sf_hyperg_1F1_int(arglist *al) {
   n = (int)al->ra[1];
   x = al->ra[2];
   if (al->derivs) {
+    int deriv_max = INT_MAX - (al->hes ? 2 : 1);
+    if (!check_deriv_arg(al, m, INT_MIN, deriv_max) ||
+        !check_deriv_arg(al, n, INT_MIN, deriv_max)) {
+      return 0;
+    }
     /* If n is an integer <= 0, then 1F1(m; n; x) is undefined.
        See http://mathworld.wolfram.com/
        ConfluentHypergeometricFunctionoftheFirstKind.html */
@@ -2007,7 +2020,8 @@ static double amplgsl_sf_hyperg_1F1_int(arglist *al) {
         m * gsl_sf_hyperg_1F1_int(m + 1, n + 1, x) / n : GSL_NAN;
     if (al->hes) {
       al->hes[5] =
-          m * (m + 1) * gsl_sf_hyperg_1F1_int(m + 2, n + 2, x) / (n * (n + 1));
+          (double)m * (m + 1) * gsl_sf_hyperg_1F1_int(m + 2, n + 2, x) /
+          ((double)n * (n + 1));
     }
   }
   return check_result(al, gsl_sf_hyperg_1F1_int(m, n, x));
@@ -2162,20 +2176,22 @@ static double amplgsl_sf_legendre_Pl(arglist *al) {
   x = al->ra[1];
   pl = gsl_sf_legendre_Pl(el, x);
   if (al->derivs) {
+    if (!check_deriv_arg(al, el, INT_MIN, INT_MAX - 2))
+      return 0;
     if (fabs(x) != 1) {
       double pl_plus_1 = gsl_sf_legendre_Pl(el + 1, x);
       double coef = (el + 1) / (x * x - 1);
       al->derivs[1] = -coef * (x * pl - pl_plus_1);
       if (al->hes) {
         al->hes[2] =
-            coef * ((x * x * (el + 2) + 1) * pl - (2 * el + 5) * x * pl_plus_1 +
+            coef * ((x * x * (el + 2) + 1) * pl - (2.0 * el + 5) * x * pl_plus_1 +
             (el + 2) * gsl_sf_legendre_Pl(el + 2, x)) / (x * x - 1);
       }
     } else {
       double coef = 0.5 * el * (el + 1);
       al->derivs[1] = pow(x, el + 1) * coef;
       if (al->hes)
-        al->hes[2] = pow(x, el) * 0.25 * coef * (el * el + el - 2);
+        al->hes[2] = pow(x, el) * 0.25 * coef * ((double)el * el + el - 2);
     }
   }
   return check_result(al, pl);
@@ -2211,12 +2227,15 @@ static double amplgsl_sf_legendre_Ql(arglist *al) {
   x = al->ra[1];
   ql = gsl_sf_legendre_Ql(el, x);
   if (al->derivs) {
-    double coef = (el + 1) / (x * x - 1);
+    double coef = 0;
+    if (!check_deriv_arg(al, el, INT_MIN, INT_MAX - 2))
+      return 0;
+    coef = (el + 1) / (x * x - 1);
     double ql_plus_1 = gsl_sf_legendre_Ql(el + 1, x);
     al->derivs[1] = coef * (ql_plus_1 - x * ql);
     if (al->hes) {
       al->hes[2] =
-          coef * ((x * x * (el + 2) + 1) * ql - (2 * el + 5) * x * ql_plus_1 +
+          coef * ((x * x * (el + 2) + 1) * ql - (2.0 * el + 5) * x * ql_plus_1 +
           (el + 2) * gsl_sf_legendre_Ql(el + 2, x)) / (x * x - 1);
     }
   }
@@ -2422,9 +2441,15 @@ static double amplgsl_sf_pow_int(arglist *al) {
   x = al->ra[0];
   n = (int)al->ra[1];
   if (al->derivs) {
+    if ((al->hes && !check_deriv_arg(al, n, INT_MIN + 2, INT_MAX)) ||
+        !check_deriv_arg(al, n, INT_MIN + 1, INT_MAX)) {
+      return 0;
+    }
     *al->derivs = n != 0 ? n * gsl_sf_pow_int(x, n - 1) : 0;
-    if (al->hes)
-      *al->hes = n != 0 && n != 1 ? n * (n - 1) * gsl_sf_pow_int(x, n - 2) : 0;
+    if (al->hes) {
+      *al->hes = n != 0 && n != 1 ?
+          (double)n * (n - 1) * gsl_sf_pow_int(x, n - 2) : 0;
+    }
   }
   CHECK_CALL(value, gsl_sf_pow_int_e(x, n, &result));
   return check_result(al, value);
@@ -2472,6 +2497,8 @@ static double amplgsl_sf_psi_n(arglist *al) {
   n = (int)al->ra[0];
   x = al->ra[1];
   if (al->derivs) {
+    if (!check_deriv_arg(al, n, INT_MIN, INT_MAX - (al->hes ? 2 : 1)))
+      return 0;
     al->derivs[1] = x >= 0 || ceil(x) != x ? gsl_sf_psi_n(n + 1, x) : GSL_NAN;
     if (al->hes)
       al->hes[2] = gsl_sf_psi_n(n + 2, x);
